@@ -145,10 +145,17 @@ func consistencyAt(n datamodel.Node, path string, depth int) (problem string) {
 			}
 			want := termOf(v)
 			for name, f := range map[string]func() (datamodel.Node, error){
-				"LookupByString":  func() (datamodel.Node, error) { return n.LookupByString(ks) },
-				"LookupByNode":    func() (datamodel.Node, error) { return n.LookupByNode(k) },
-				"LookupByNode2":   func() (datamodel.Node, error) { return n.LookupByNode(basicnode.NewString(ks)) },
-				"LookupBySegment": func() (datamodel.Node, error) { return n.LookupBySegment(datamodel.PathSegmentOfString(ks)) },
+				"LookupByString":                    func() (datamodel.Node, error) { return n.LookupByString(ks) },
+				"LookupByNode":                      func() (datamodel.Node, error) { return n.LookupByNode(k) },
+				"LookupByNode2":                     func() (datamodel.Node, error) { return n.LookupByNode(basicnode.NewString(ks)) },
+				"LookupBySegment":                   func() (datamodel.Node, error) { return n.LookupBySegment(datamodel.PathSegmentOfString(ks)) },
+				"LookupBySegment(ParsePathSegment)": func() (datamodel.Node, error) { return n.LookupBySegment(datamodel.ParsePathSegment(ks)) },
+				"LookupBySegment(ParsePath)": func() (datamodel.Node, error) {
+					if ks == "" || strings.Contains(ks, "/") {
+						return n.LookupByString(ks) // not expressible as one segment of a path text
+					}
+					return n.LookupBySegment(datamodel.ParsePath(ks).Segments()[0])
+				},
 			} {
 				got, err := f()
 				if err != nil {
